@@ -1,3 +1,95 @@
 import KsiVerif.Util.DriverMain
-open KsiVerif
-def main : IO Unit := runDriver (fun i _ => "skip no-model-yet " ++ i)
+import KsiVerif.Model.Tcp
+/-! Model driver for C14 — protocol in harness/exec_c14.c. -/
+open KsiVerif KsiVerif.Tcp
+
+def parseRecvs (s : String) : List RecvRes :=
+  if s == "-" then [] else (s.splitOn ".").map fun x =>
+    if x == "w" then .wouldBlock else if x == "z" then .closed else if x == "x" then .error else .data (x.toNat?.getD 0)
+def parseSends (s : String) : List SendRes :=
+  if s == "-" then [] else (s.splitOn ".").map fun x =>
+    if x == "w" then .wouldBlock else if x == "x" then .error else .accept (x.toNat?.getD 1)
+def parsePoll (s : String) : PollRes :=
+  if s == "0" then .timeout else if s == "E" then .error
+  else .ready (s.contains 'I') (s.contains 'O') (s.contains 'H')
+
+def showReq (r : Req) : String :=
+  match r.state with
+  | .dispatch => s!"D:{r.sent}"
+  | .waitResponse => s!"W:{r.sent}"
+  | .error e => s!"E{e}:{r.sent}"
+  | .other => s!"X:{r.sent}"
+
+def joinOr (l : List String) : String := if l.isEmpty then "-" else "|".intercalate l
+
+/-- spec: all complete TLVs at the front of a byte stream (independent of the model's `extract`:
+uses the format's own header decoder) -/
+partial def specSplit (b : Bytes) : List Bytes :=
+  match b with
+  | b0 :: b1 :: rest =>
+    let (hl, dl) := if b0.toNat &&& 0x80 != 0 then
+        (match rest with | b2 :: b3 :: _ => (4, b2.toNat * 256 + b3.toNat) | _ => (4, 1 <<< 20))
+      else (2, b1.toNat)
+    if b.length ≥ hl + dl then b.take (hl + dl) :: specSplit (b.drop (hl + dl)) else []
+  | _ => []
+
+/-- can the hex string `c` be written as whole requests (a subsequence, in order) followed by a
+proper or improper prefix of one more request? -/
+partial def connDecomposes (reqs : List String) (c : String) : Bool :=
+  if c.isEmpty then true else
+  match reqs with
+  | [] => false
+  | r :: rest =>
+    (r.startsWith c) ||                                   -- the tail: a prefix of this request
+    (!r.isEmpty && c.startsWith r && connDecomposes rest ((c.drop r.length).toString)) ||
+    connDecomposes rest c                                  -- this request was not sent on this connection
+
+def isPrefix (a b : List String) : Bool := a.length ≤ b.length && b.take a.length == a
+
+def handle (inp out : String) : String :=
+  match words inp with
+  | ["tcp", opts, streamHex, steps] =>
+    match (opts.splitOn ":").map String.toNat?, ofHex streamHex with
+    | [some c, some sn, some mx, some rd], some stream =>
+      let o : Opts := ⟨c, sn, mx, rd⟩
+      let init : State := { stream := stream }
+      let (s, now, rcs, reqBytes) := (steps.splitOn ",").foldl (fun (acc : State × Nat × List Nat × List Bytes) tok =>
+        let (s, now, rcs, rb) := acc
+        match tok.splitOn ":" with
+        | ["q", hx] => let b := (ofHex hx).getD []; (enqueue s b now, now, rcs, rb ++ [b])
+        | ["t", n] => (s, now + n.toNat?.getD 0, rcs, rb)
+        | ["d", p, cn, rv, sd] =>
+          let e : Env := ⟨parsePoll p, parseRecvs rv, parseSends sd, cn == "y", now⟩
+          let (s', rc) := dispatch o e s
+          (s', now, rcs ++ [rc], rb)
+        | _ => acc) (init, 1000, [], [])
+      let ms := s!"{if rcs.isEmpty then "-" else ",".intercalate (rcs.map toString)} {joinOr (s.conns.map toHex)} {joinOr (s.respQueue.map toHex)} {s.inBuf.length} {joinOr (s.reqs.map showReq)}"
+      -- oracle on the implementation's observable behaviour
+      let spec : Option String :=
+        match words out with
+        | [_, conns, pdus, _, _] =>
+          let implPdus := if pdus == "-" then [] else pdus.splitOn "|"
+          -- (1) what reached the upper layer is a prefix of the complete PDUs in the stream, in order,
+          --     restarting at a connection loss only by dropping buffered bytes (never inventing data)
+          let consumed := stream.take (stream.length - s.stream.length)
+          let want := (specSplit consumed).map toHex
+          let rxBad := !(implPdus.all fun p => (specSplit stream).map toHex |>.contains p)
+          -- (2) every connection carries a concatenation of whole requests in order, cut short only at its end,
+          --     and starts at a request boundary
+          let reqHex := (reqBytes.map toHex).map fun h => if h == "-" then "" else h
+          let implConns := if conns == "-" then [] else conns.splitOn "|"
+          let rxChecked := rcs.all (· == 0) && s.conns.length ≤ 1
+          if rxChecked && rxBad then some "delivered-bytes-that-are-not-a-PDU-of-the-stream"
+          else if rxChecked && !(isPrefix implPdus want) then some "PDUs-delivered-differ-from-those-in-the-stream"
+          else if !(implConns.all fun c => c == "-" || connDecomposes reqHex c) then
+            some "connection-does-not-carry-whole-requests-in-order-from-a-request-boundary"
+          else none
+        | _ => some "short-impl-output"
+      let cls := s!"tcp:c{min s.conns.length 3}:p{min s.respQueue.length 5}:{if rcs.any (· != 0) then "closed" else "ok"}"
+      match spec with
+      | some why => s!"specfail {cls} {why}"
+      | none => if ms == out then s!"ok {cls}" else s!"diff {cls} model={ms}"
+    | _, _ => "skip bad-tcp-args"
+  | _ => "skip unknown-op"
+
+def main : IO Unit := runDriver handle
